@@ -630,7 +630,6 @@ impl Runner {
 /// MHDR 0x00 | AppEUI (LE) | DevEUI (LE) | DevNonce (LE) | MIC = CMAC(AppKey, MHDR..DevNonce)[0..4]
 pub fn check_join_request(frame: &[u8], nonce: u16, cred: usize) -> String {
     let (aeui, deui, key) = CREDS[cred];
-    use lorawan::keys::Crypto;
     if frame.len() != 23 {
         return format!("BAD:len{}", frame.len());
     }
@@ -644,7 +643,8 @@ pub fn check_join_request(frame: &[u8], nonce: u16, cred: usize) -> String {
     if frame[17..19] != nonce.to_le_bytes() {
         return "BAD:nonce".into();
     }
-    let mic = DefaultCrypto::new(&AES128(key)).calculate_mic(&[], &frame[..19]);
+    // CMAC straight from the primitive (refcodec), not through the crate's crypto wrappers
+    let mic = crate::refcodec::cmac4(&key, &frame[..19]);
     if frame[19..23] != mic {
         return "BAD:mic".into();
     }
@@ -654,14 +654,12 @@ pub fn check_join_request(frame: &[u8], nonce: u16, cred: usize) -> String {
 /// LoRaWAN 1.0.x §6.2.5 session key derivation, straight from the formula:
 /// key = aes128_encrypt(AppKey, tag | JoinNonce | NetID | DevNonce | pad16)
 pub fn derive_key(tag: u8, nonce: u16, cred: usize) -> [u8; 16] {
-    use lorawan::keys::Crypto;
     let mut b = [0u8; 16];
     b[0] = tag;
     b[1..4].copy_from_slice(&JOIN_NONCE);
     b[4..7].copy_from_slice(&NET_ID);
     b[7..9].copy_from_slice(&nonce.to_le_bytes());
-    DefaultCrypto::new(&AES128(CREDS[cred].2)).encrypt_block(&mut b);
-    b
+    crate::refcodec::aes_enc(&CREDS[cred].2, &b)
 }
 
 fn fallback_rf() -> RfConfig {
